@@ -220,6 +220,11 @@ func (evkg EvaluationKeyGenProtocol) AggregateShares(share1, share2 EvaluationKe
 		return fmt.Errorf("cannot AggregateShares: share LevelP do not match")
 	}
 
+	if d := share1.BaseTwoDecompositionVectorSize(); share1.BaseTwoDecomposition != share2.BaseTwoDecomposition || share1.BaseTwoDecomposition != share3.BaseTwoDecomposition ||
+		!slices.Equal(d, share2.BaseTwoDecompositionVectorSize()) || !slices.Equal(d, share3.BaseTwoDecompositionVectorSize()) {
+		return fmt.Errorf("cannot AggregateShares: share BaseTwoDecomposition do not match")
+	}
+
 	m1 := share1.Value
 	m2 := share2.Value
 	m3 := share3.Value
